@@ -6,12 +6,14 @@ import (
 	"flag"
 	"fmt"
 	"go/ast"
+	"go/types"
 	"os"
 	"sort"
 	"strconv"
 	"strings"
 	"time"
 
+	"verif/checker/internal/base"
 	"verif/checker/internal/inl"
 	"verif/checker/internal/ir"
 	"verif/checker/internal/report"
@@ -25,7 +27,9 @@ func main() {
 	verif := flag.String("verif", "/verif", "verif directory (evidence/, replay/, known_findings.json)")
 	list := flag.Bool("list", false, "list obligations")
 	dump := flag.String("dump", "", "dump SSA of the named function and exit")
+	listSyms := flag.Bool("list-symbols", false, "print the symbol table of the module packages and exit (regenerates internal/base/baseline_symbols.txt)")
 	listFuncs := flag.Bool("list-funcs", false, "print the baseline keys of every declared module function and exit (regenerates internal/inl/baseline_funcs.txt)")
+	inlineAll := flag.Bool("inline-all", false, "self-test of the inliner: treat every function as new")
 	noInline := flag.Bool("no-inline", false, "do not inline functions that are new relative to the pinned tree")
 	showSrc := flag.Bool("show-inlined", false, "print the rewritten source files and exit")
 	flag.Parse()
@@ -43,7 +47,7 @@ func main() {
 			ids = append(ids, id)
 		}
 		sort.Strings(ids)
-	} else if *dump == "" && !*listFuncs && !*showSrc {
+	} else if *dump == "" && !*listFuncs && !*showSrc && !*listSyms {
 		for _, id := range strings.Split(*prop, ",") {
 			if _, ok := rules.Registry[id]; !ok {
 				fmt.Printf("CHECK-BROKEN unknown property %q\n", id)
@@ -57,6 +61,37 @@ func main() {
 	if err != nil {
 		fmt.Printf("CHECK-BROKEN cannot analyse %s: %v\n", *repo, err)
 		os.Exit(2)
+	}
+	if *listSyms {
+		fmt.Print(base.Generate(p.Mod, ir.ExcludedFile))
+		fmt.Print(base.Generate(p.Cache.Mod, ir.ExcludedFile))
+		os.Exit(0)
+	}
+	var renameNotes []string
+	for _, pr := range []*ir.Program{p, p.Cache} {
+		if pr.Ren == nil {
+			continue
+		}
+		renameNotes = append(renameNotes, pr.Ren.Notes...)
+		for _, m := range []map[string]*types.Func{pr.Ren.Func, pr.Ren.Method} {
+			for _, obj := range m {
+				inl.Renamed[funcKey(obj)] = true
+			}
+		}
+		// every method of a renamed type is a baseline method
+		for _, pk := range pr.Mod {
+			for _, name := range pk.Types.Scope().Names() {
+				tn, ok := pk.Types.Scope().Lookup(name).(*types.TypeName)
+				if !ok || pr.Ren.TypeRev[pk.PkgPath+"."+name] == "" {
+					continue
+				}
+				if n, ok := tn.Type().(*types.Named); ok {
+					for i := 0; i < n.NumMethods(); i++ {
+						inl.Renamed[funcKey(n.Method(i))] = true
+					}
+				}
+			}
+		}
 	}
 	if *listFuncs {
 		var names []string
@@ -82,6 +117,9 @@ func main() {
 	}
 	var inlined, keptNew, newFuncs []string
 	inlineNote := ""
+	if *inlineAll {
+		inl.TreatAllAsNew = true
+	}
 	if !*noInline {
 		overlay := map[string][]byte{}
 		for _, pr := range []*ir.Program{p, p.Cache} {
@@ -152,6 +190,9 @@ func main() {
 			run.Extra["new_function_calls_inlined_before_analysis"] = inlined
 			run.Extra["new_functions_not_inlined"] = keptNew
 		}
+		if len(renameNotes) > 0 {
+			run.Extra["baseline_symbols_renamed_in_this_tree"] = renameNotes
+		}
 		if inlineNote != "" {
 			run.Extra["inlining_note"] = inlineNote
 		}
@@ -168,4 +209,29 @@ func main() {
 		}
 	}
 	os.Exit(exit)
+}
+
+// funcKey is inl.FuncName for a types.Func.
+func funcKey(obj *types.Func) string {
+	sig := obj.Type().(*types.Signature)
+	if sig.Recv() == nil {
+		return obj.Pkg().Path() + "." + obj.Name()
+	}
+	t := sig.Recv().Type()
+	ptr := false
+	if p, ok := t.(*types.Pointer); ok {
+		ptr = true
+		t = p.Elem()
+	}
+	name := "?"
+	if n, ok := t.(*types.Named); ok {
+		name = n.Obj().Name()
+		if n.TypeParams().Len() > 0 {
+			name += "[]"
+		}
+	}
+	if ptr {
+		return obj.Pkg().Path() + ".(*" + name + ")." + obj.Name()
+	}
+	return obj.Pkg().Path() + ".(" + name + ")." + obj.Name()
 }
